@@ -60,3 +60,6 @@ Proof. induction l as [|x t IH]; cbn [nodupb]; [split; [constructor|reflexivity]
   - intros H. inversion H; subst. split; [destruct (s_mem x t) eqn:E; [apply s_mem_In in E; contradiction|reflexivity]|assumption]. Qed.
 (* s == t on sets *)
 Definition set_eqb (a b : list nat) : bool := forallb (fun x => s_mem x b) a && forallb (fun x => s_mem x a) b.
+(* d1 == d2 on dictionaries of integers: the same keys with the same values, in any order *)
+Definition dict_eqb (a b : dictZ) : bool :=
+  set_eqb (d_keys a) (d_keys b) && forallb (fun kv => match d_find (fst kv) b with Some y => snd kv =? y | None => false end) a.
